@@ -1,6 +1,7 @@
 package main
 
 import (
+	"encoding/binary"
 	"fmt"
 	"strings"
 
@@ -48,6 +49,38 @@ func boltValid(r *Rng, v2 bool, big bool) validFrame {
 	mk("vallen-over", append(append([]byte{}, base...), cat(be32(1), []byte("k"), be32(7), []byte("abc"))...))
 	mk("key-without-value", append(append([]byte{}, base...), cat(be32(3), []byte("key"))...))
 	mk("keylen=7fffffff", append(append([]byte{}, base...), cat(be32(0x7fffffff), []byte("x"))...))
+	// every key / value LENGTH PREFIX inside the (otherwise consistent) header block set to the values around the
+	// 32-bit boundaries: 2^32-1-k for k around 0..16 and around index..index+5 (where index+4+length wraps in uint32),
+	// 2^31-1, 2^31, 2^31+1.  Frame length fields stay consistent: only the 4 prefix bytes change.
+	type pos struct{ off int }
+	var prefixes []int
+	off := 0
+	for _, p := range f.KVs {
+		prefixes = append(prefixes, off)
+		off += 4 + len(p[0])
+		prefixes = append(prefixes, off)
+		off += 4 + len(p[1])
+	}
+	sel := prefixes
+	if len(sel) > 8 {
+		sel = []int{prefixes[0], prefixes[1], prefixes[2], prefixes[len(prefixes)/2], prefixes[len(prefixes)-2], prefixes[len(prefixes)-1]}
+	}
+	for _, po := range sel {
+		ks := []uint64{0, 1, 2, 3, 4, 5, 8, 16}
+		for d := uint64(0); d <= 6; d++ {
+			ks = append(ks, uint64(po)+d)
+		}
+		ks = append(ks, uint64(po)+16)
+		vals := []uint32{0x7fffffff, 0x80000000, 0x80000001}
+		for _, k := range ks {
+			vals = append(vals, uint32(0xffffffff-k))
+		}
+		for _, v := range vals {
+			h := append([]byte{}, base...)
+			binary.BigEndian.PutUint32(h[po:], v)
+			mk(fmt.Sprintf("pairlen@%d=%x", po, v), h)
+		}
+	}
 	return vf
 }
 
